@@ -11,10 +11,19 @@ from . import sqlproxy as SP
 OPS_ALL = ["mk", "mk", "mk_child", "mk_child", "add", "set", "set", "set_parent", "bs_append", "bs_remove", "bs_replace", "tag_add", "tag_remove",
            "node_parent", "follow", "unfollow", "set_p", "k_rename", "h_doc", "delete", "expunge", "flush", "flush", "commit", "rollback",
            "begin_nested", "sp_commit", "sp_rollback", "close", "requery", "get", "lazy", "expire", "expire_all", "refresh",
-           "mut_data", "mut_items", "ext_update", "merge", "drop", "gc", "pickle_rt", "populate_existing", "q_ops", "g_ops", "expire_attr", "read", "m_ops", "m_reload"]
+           "mut_data", "mut_items", "ext_update", "merge", "drop", "gc", "pickle_rt", "populate_existing", "q_ops", "g_ops", "expire_attr", "read", "m_ops", "m_reload", "reset"]
 
 
 _ENGINES = {}
+_CURRENT = {"run": None}
+_MAPPER_EVENTS = set()
+
+
+class InjectedListenerError(Exception):
+    """raised by the harness from an ORM event hook (fault kind listener_exception)"""
+
+
+DML_PREFIXES = ("INSERT", "UPDATE", "DELETE")
 
 
 class Run:
@@ -43,8 +52,19 @@ class Run:
         self.dropped_pks = {}
         fk_on = self.cfg.get("fk_on", True)
         key = (os.getpid(), self.cfg["universe"], fk_on)
-        self.plan = SP.Plan(case.get("faults") or [])
+        allf = case.get("faults") or []
+        self.plan = SP.Plan([f for f in allf if not str(f[0]).startswith(("listener:", "plant:"))])
         self.plan.enabled = False
+        self.lplan = {(f[0][9:], int(f[1])): f[2] for f in allf if str(f[0]).startswith("listener:")}
+        self.plant = [f[0][6:] for f in allf if str(f[0]).startswith("plant:")]
+        self.planted = []
+        self.lcount = {}
+        self.lcalls = []
+        self.lfired = []
+        self.txn_start = None
+        self.c32_recovered = False
+        self.in_retry = False
+        self._fired_mark = 0
         cached = _ENGINES.get(key)
         if cached is None:
             path = os.path.join(OS._dir[0], "o%d_%s_%d.db" % (os.getpid(), key[1], int(fk_on)))
@@ -82,6 +102,11 @@ class Run:
             self.obs.execute("delete from %s" % t)
         self.session = None
         self.new_session()
+        self.register_mapper_events()
+        _CURRENT["run"] = self
+        # fault positions are ordinals counted from here (table creation of the first run of a process must not shift them)
+        self.plan.count.clear()
+        del self.plan.calls[:]
         self.plan.enabled = True
         self.prev_tables = self.probe(committed=True)
 
@@ -102,9 +127,44 @@ class Run:
                     self.events.append((name, id(obj)))
                     if name == "persistent_to_deleted":
                         self.deleted_in_op.add((self.tab_of(type(obj).__name__), OS.pk_of(obj)))
+                    self.lpoint(name)
                 return fn
             ev.listen(self.session, name, mk(name))
+        for name in ("before_flush", "after_flush", "after_flush_postexec", "after_rollback", "after_soft_rollback", "before_commit"):
+            ev.listen(self.session, name, (lambda n: lambda *a: self.lpoint(n))(name))
         self.sp_stack = []
+
+    def register_mapper_events(self):
+        key = self.cfg["universe"]
+        if key in _MAPPER_EVENTS:
+            return
+        _MAPPER_EVENTS.add(key)
+        ev = self.m["event"]
+        for cn, C in self.U["classes"].items():
+            for name in ("before_insert", "after_insert", "before_update", "after_update", "before_delete", "after_delete"):
+                def mk(name, cn):
+                    def fn(mapper, connection, target):
+                        if type(target).__name__ != cn:
+                            return          # inherited listener: counted once, on the class itself
+                        run = _CURRENT["run"]
+                        if run is not None:
+                            run.lpoint(name)
+                    return fn
+                ev.listen(C, name, mk(name, cn))
+
+    def lpoint(self, name):
+        n = self.lcount[name] = self.lcount.get(name, 0) + 1
+        self.lcalls.append((name, n))
+        if self.lplan.get((name, n)) and self.plan.enabled:
+            self.lfired.append((name, n))
+            raise InjectedListenerError("injected exception in %s hook" % name)
+
+    def fired_total(self):
+        return len(self.plan.fired) + len(self.lfired)
+
+    def faulted_now(self):
+        """did an injected fault fire during the current operation"""
+        return self.fired_total() > self._fired_mark
 
     def probe(self, committed=False):
         """table contents: through the session's own connection (sees its transaction) or the observer (committed only)"""
@@ -202,12 +262,18 @@ class Run:
         try:
             with warnings.catch_warnings():
                 warnings.simplefilter("ignore")
+                stop = lambda: any(v["prop"] in self.case.get("stop_on", ()) or v["prop"] == "*" or not self.case.get("stop_on")
+                                   for v in self.viol)
                 for i, op in enumerate(self.case["prog"]):
                     self.step(i, op)
-                    if any(v["prop"] in self.case.get("stop_on", ()) or v["prop"] == "*" or not self.case.get("stop_on") for v in self.viol):
+                    if stop() or self.c32_recovered:
                         break
-                if not self.viol:
+                if not self.viol and not self.c32_recovered:
                     self.step(len(self.case["prog"]), ["commit", 0, 0])
+                if self.c32_recovered and not stop():
+                    self.c32_retry()
+                if self.case.get("c32") and not self.c32_bad():
+                    self.c32_collect()
         finally:
             self.cleanup()
         return self.result()
@@ -227,18 +293,23 @@ class Run:
             pass
         self.obs.close()
         _ENGINES[(os.getpid(), self.cfg["universe"], self.cfg.get("fk_on", True))][3]["run"] = None
+        _CURRENT["run"] = None
         gc.collect()
 
     def result(self):
         from .core import digest_of
         for k, n, f, cid in self.plan.fired:
             self.bump("fault:%s_%s" % (k.split(":")[0], f))
+        for name, n in self.lfired:
+            self.bump("fault:listener_exception_" + name)
+        for cn in self.planted_ever if hasattr(self, "planted_ever") else ():
+            self.bump("fault:real_integrity_conflict")
         self.bump("ops", len(self.trace))
         self.bump("universe_" + self.cfg["universe"])
         return {"viol": self.viol, "digest": digest_of([self.cfg, self.case["prog"], self.case.get("faults"), self.trace]),
                 "nontrivial": self.counters.get("probe:flush_with_changes", 0) > 0 or self.counters.get("ops", 0) > 5,
                 "counters": self.counters, "sets": {"abstract_states": [[self.cfg["universe"], len(self.objs), len(self.trace) // 5]]},
-                "trace": self.trace[:60]}
+                "trace": self.trace[:60], "derive": getattr(self, "derive_info", None)}
 
     # ------------------------------------------------------------------ one operation
     def step(self, i, op):
@@ -250,42 +321,40 @@ class Run:
         del self.sql[:]
         out = None
         exc = self.m["exc"]
+        self._fired_mark = self.fired_total()
         try:
             out = getattr(self, "op_" + kind)(a1, a2)
         except exc.IntegrityError as e:
             out = "IntegrityError"
-            if not self.plan.fired:
+            if not self.faulted_now() and not self.planted:
                 self.V("C31", "flush_integrity_error", "flush raised IntegrityError although the final in-memory state satisfies every constraint "
                        "(universe %s, op %s): %s" % (self.cfg["universe"], kind, str(e).split("\n")[0][:100]), op=i)
-            self.session.rollback()
-            self.after_rollback()
+            self.recover(i, kind)
         except exc.PendingRollbackError:
             out = "PendingRollbackError"
-            self.session.rollback()
-            self.after_rollback()
+            self.recover(i, kind)
         except exc.InvalidRequestError as e:
             # documented usage errors (e.g. a cascade reaching an instance that "has been deleted"); not a verdict
             out = "InvalidRequestError"
             self.bump("probe:usage_error")
-            self.session.rollback()
-            self.after_rollback()
+            self.recover(i, kind)
         except self.m["orm_exc"].FlushError as e:
             out = "FlushError"
             self.V("C39", "unexpected_flush_error", "flush raised FlushError inside documented usage: %s" % str(e)[:120], op=i)
-            self.session.rollback()
-            self.after_rollback()
+            self.recover(i, kind)
         except self.m["orm_exc"].StaleDataError as e:
             out = "StaleDataError"
             self.V("C33", "session_object_without_row", "flush raised StaleDataError: the session holds a persistent object whose row does not exist "
                    "(%s)" % str(e)[:90], op=i)
-            self.session.rollback()
-            self.after_rollback()
+            self.recover(i, kind)
         except exc.DBAPIError as e:
             out = "DBAPIError"
-            if not self.plan.fired:
+            if not self.faulted_now():
                 self.V("C30", "unexpected_db_error", "operation %s raised %s: %s" % (kind, type(e).__name__, str(e).split("\n")[0][:100]), op=i)
-            self.session.rollback()
-            self.after_rollback()
+            self.recover(i, kind)
+        except InjectedListenerError:
+            out = "ListenerError"
+            self.recover(i, kind)
         except (AssertionError, AttributeError, KeyError, TypeError, IndexError, self.m["exc"].SQLAlchemyError) as e:
             # an internal error escaping from documented usage: the operation did not do its work (counts for whichever property is checked)
             import traceback
@@ -312,7 +381,7 @@ class Run:
             if not (self.session.new or self.session.dirty or self.session.deleted):
                 self.check_rows(now, "autoflush in " + kind)     # (the operation itself may have changed objects *after* its autoflush)
             self.prev_tables = now
-        if out == "skip":
+        if out == "skip" or kind == "reset":
             return
         self.pk_mem = {e["label"]: OS.pk_of(e["obj"]) for e in self.entries() if self.in_session(e["obj"])}
         rolled_back = kind in ("rollback", "sp_rollback") or (isinstance(out, str) and out.endswith("Error"))
@@ -321,6 +390,273 @@ class Run:
             self.retire_rolled_back(before)
         self.check_backrefs(i, kind)
         self.check_identity(i, kind)
+
+
+    # ------------------------------------------------------------------ C32: failed flush, recovery, retry
+    def c32_bad(self):
+        return any(v["prop"] in ("C32", "*") for v in self.viol)
+
+    def recover(self, i, kind):
+        """an operation raised: the documented recovery is Session.rollback().  When the failure was injected (or planted) and the history
+        is a C32 history, the guarantees of C32 are checked around that rollback"""
+        c32 = bool(self.case.get("c32")) and self.txn_start is not None and not self.in_retry and (self.faulted_now() or bool(self.planted))
+        if c32:
+            self.c32_before_rollback(kind)
+        try:
+            self.session.rollback()
+        except (self.m["exc"].DBAPIError, InjectedListenerError):
+            # a fault injected into the rollback itself (rollback_error / after_rollback hook): the state was restored before the error
+            # was reported (documented); a second call is a no-op
+            self.bump("probe:rollback_raised")
+            self.session.rollback()
+        self.after_rollback()
+        if c32 and not self.c32_bad():
+            self.c32_after_rollback(kind)
+            self.c32_recovered = True
+
+    ALL_CLASSES = ("A", "B", "T", "Node", "K", "P", "BL", "D", "H", "Q", "R", "G", "O", "M")
+
+    def op_reset(self, a1, a2, reuse_session=False):
+        """C32 transaction boundary: commit, let go of every object, (new) session, load every row in a fixed order.  The fault-free run,
+        the faulted run and the retry all start their transaction from here"""
+        if not reuse_session:
+            if self.session.in_transaction() or self.session.new or self.session.dirty or self.session.deleted:
+                self.op_commit(0, 0)
+                if self.c32_bad():
+                    return "commit-first"
+        self.session.close()
+        for e in self.objs:
+            e["obj"] = None
+        self.objs = []
+        self.by_id.clear()
+        self.removed_rs = []
+        self.loaded_before_set.clear()
+        self.dropped_pks = {}
+        self.pk_mem = {}
+        self.pre_pk = {}
+        gc.collect()
+        if not reuse_session:
+            self.new_session()
+        if self.txn_start is not None:
+            self.next_id = dict(self.txn_start["next_id"])
+        sel = self.m["select"]
+        for cn in self.ALL_CLASSES:
+            C = self.U["classes"][cn]
+            pkcol = C.name if cn == "K" else C.id
+            for o in self.session.execute(sel(C).order_by(pkcol)).scalars().all():
+                self.track(o)
+        self.session.commit()          # ends the read transaction (the observer may write now); expires per expire_on_commit
+        self.txn_flushed = False
+        self.sp_stack = []
+        tabs = self.probe(committed=True)
+        if self.txn_start is None:
+            self.txn_start = {"tables": tabs, "next_id": dict(self.next_id), "n": len(self.objs), "op": len(self.trace),
+                              "call0": len(self.plan.calls), "lcall0": len(self.lcalls)}
+            for cn in self.plant:
+                self.plant_row(cn)
+            tabs = self.probe(committed=True)
+        elif tabs != self.txn_start["tables"]:
+            self.V("C32", "rows_changed_by_failed_transaction", "committed rows differ from those at the start of the failed transaction: %s"
+                   % self.diff_tables(self.txn_start["tables"], tabs))
+        self.prev_tables = tabs
+        return "reset:%d" % len(self.objs)
+
+    def plant_row(self, cn):
+        """a committed row with the primary key the next object of that class will get: the INSERT of the flush hits a real constraint"""
+        n = self.next_id.get("A" if cn == "A2" else cn, 0) + 1
+        tab = self.tab_of(cn)
+        sql = {"a": ("insert into a (id, name, kind) values (?, 'planted', 'a')", (n,)), "t": ("insert into t (id, name) values (?, 'planted')", (n,)),
+               "node": ("insert into node (id, name) values (?, 'planted')", (n,)), "k": ("insert into k (name, val) values (?, 0)", ("k%d" % n,)),
+               "p": ("insert into p (id, note) values (?, 'planted')", (n,)), "m": ("insert into m (id) values (?)", (n,)),
+               "g": ("insert into g (id, note) values (?, 'planted')", (n,)), "q": ("insert into q (id, note) values (?, 'planted')", (n,)),
+               "h": ("insert into h (id, note) values (?, 'planted')", (n,))}.get(tab)
+        if sql is None:
+            return
+        self.obs.execute(*sql)
+        self.planted.append((tab, sql[1][0]))
+        self.planted_ever = getattr(self, "planted_ever", []) + [cn]
+
+    def unplant(self):
+        for tab, pk in self.planted:
+            self.obs.execute("delete from %s where %s=?" % (tab, "name" if tab == "k" else "id"), (pk,))
+        self.planted = []
+
+    def c32_start_tables(self):
+        t = {k: dict(v) for k, v in self.txn_start["tables"].items()}
+        if self.planted:
+            now = self.probe(committed=True)
+            for tab, pk in self.planted:
+                if pk in now[tab]:
+                    t[tab][pk] = now[tab][pk]
+        return t
+
+    def c32_before_rollback(self, kind):
+        want = self.c32_start_tables()
+        now = self.probe(committed=True)
+        if now != want:
+            self.V("C32", "failed_flush_left_committed_rows", "rows committed although the flush failed (before rollback): %s" % self.diff_tables(want, now))
+        stmt_fault = any(k.startswith("execute") for k, n, f, cid in self.plan.fired[-1:]) and not self.lfired
+        if stmt_fault and kind != "commit" and len(self.trace) % 2 == 0:
+            # without rollback() the session refuses further work; in particular a commit must not publish part of the failed flush
+            try:
+                self.session.commit()
+                raised = False
+            except (self.m["exc"].SQLAlchemyError, InjectedListenerError):
+                raised = True
+            now = self.probe(committed=True)
+            if now != want:
+                self.V("C32", "commit_after_failed_flush_published_rows", "commit() after the failed flush (no rollback yet) committed rows of "
+                       "the failed transaction: %s" % self.diff_tables(want, now))
+            elif not raised:
+                self.V("C32", "commit_after_failed_flush_succeeded", "commit() right after a flush that failed at a statement did not raise")
+            self.bump("probe:commit_attempt_before_rollback")
+
+    def c32_rel_expect(self, e, an, tabs):
+        """members of a relationship according to the rows: sorted pks (dict collection: {key: pk})"""
+        o = e["obj"]
+        r = OS.rel_of(self.U, o, an)
+        pk = OS.pk_of(o)
+        if r["kind"] == "m2m":
+            t2, own, oth = r["assoc"]
+            cols = self.U["tables"][t2]
+            return sorted(rr[cols.index(oth)] for rr in tabs[t2].values() if rr[cols.index(own)] == pk)
+        t2, col = r["fk"]
+        cols = self.U["tables"][t2]
+        if r["kind"] == "m2o":
+            row = tabs[t2].get(pk)
+            fk = row[cols.index(col)] if row is not None else None
+            return [fk] if fk is not None else []
+        return sorted(k for k, rr in tabs[t2].items() if rr[cols.index(col)] == pk)
+
+    def c32_after_rollback(self, kind):
+        sess = self.session
+        want = self.c32_start_tables()
+        now = self.probe(committed=True)
+        if now != want:
+            self.V("C32", "rows_changed_by_failed_transaction", "after rollback the committed rows differ from those at the start of the "
+                   "transaction: %s" % self.diff_tables(want, now))
+            return
+        n0 = self.txn_start["n"]
+        for e in self.entries():
+            o, st, ins = e["obj"], OS.state_of(e["obj"]), self.in_session(e["obj"])
+            if e["label"] >= n0:
+                if ins or st not in ("transient",):
+                    self.V("C32", "added_object_not_transient", "%s created in the failed transaction is %s%s after rollback, not transient"
+                           % (e["cls"], st, " (in the session)" if ins else ""))
+            elif not e.get("expunged"):
+                if st != "persistent" or not ins:
+                    self.V("C32", "object_not_persistent_again", "%s #%s was persistent when the transaction began and is %s%s after its rollback"
+                           % (e["cls"], OS.pk_of(o), st, "" if ins else " (not in the session)"))
+        if sess.new or sess.dirty or sess.deleted:
+            self.V("C32", "pending_work_after_rollback", "after rollback the session still lists new=%d dirty=%d deleted=%d"
+                   % (len(sess.new), len(sess.dirty), len(sess.deleted)))
+        if self.c32_bad():
+            return
+        # attributes reload current values
+        for e in self.entries():
+            o = e["obj"]
+            if e["label"] >= n0 or e.get("expunged") or not self.in_session(o):
+                continue
+            pk = OS.pk_of(o)
+            tab = self.tab_of(e["cls"])
+            row = now[tab].get(pk)
+            if row is None:
+                self.V("C32", "object_not_persistent_again", "%s #%s is persistent after rollback but has no row" % (e["cls"], pk))
+                continue
+            cols = self.U["tables"][tab]
+            for an in self.U["scal"][e["cls"]]:
+                got = getattr(o, an)
+                dbv = now["a2"][pk][1] if an == "extra" else row[cols.index(an)]
+                if got != dbv:
+                    self.V("C32", "attribute_not_reloaded", "after rollback %s #%s.%s reads %r, the row has %r" % (e["cls"], pk, an, got, dbv))
+            if e["cls"] == "M":
+                for an, dbv in self.m_row_values(row).items():
+                    if self.m_plain(an, getattr(o, an)) != dbv:
+                        self.V("C32", "attribute_not_reloaded", "after rollback M #%s.%s reads %r, the row has %r" % (pk, an, getattr(o, an), dbv))
+            for an in OS.rel_attrs(self.U, o):
+                v = getattr(o, an)
+                mem = OS.members(v)
+                got = sorted(OS.pk_of(x) for x in mem)
+                exp = self.c32_rel_expect(e, an, now)
+                if got != exp:
+                    self.V("C32", "relationship_not_reloaded", "after rollback %s #%s.%s holds %s, the rows say %s" % (e["cls"], pk, an, got, exp))
+                for x in mem:
+                    if OS.state_of(x) != "persistent" or not self.in_session(x):
+                        self.V("C32", "relationship_not_reloaded", "after rollback %s #%s.%s holds a %s object" % (e["cls"], pk, an, OS.state_of(x)))
+        if sess.new or sess.dirty or sess.deleted:
+            self.V("C32", "pending_work_after_rollback", "reading the attributes after rollback left new=%d dirty=%d deleted=%d in the session"
+                   % (len(sess.new), len(sess.dirty), len(sess.deleted)))
+        if self.c32_bad():
+            return
+        del self.sql[:]
+        try:
+            sess.commit()
+        except Exception as ex:
+            self.V("C32", "session_not_usable_after_rollback", "commit() of the empty session after rollback raised %s: %s" % (type(ex).__name__, str(ex)[:80]))
+            return
+        if self.probe(committed=True) != want:
+            self.V("C32", "empty_commit_wrote_rows", "a commit with no new work after the rollback changed rows: %s"
+                   % self.diff_tables(want, self.probe(committed=True)))
+        self.bump("probe:recovered_after_fault")
+
+    def c32_retry(self):
+        """the same work again, same Session object, no fault: must end where the fault-free run ended"""
+        self.in_retry = True
+        self.plan.enabled = False
+        self.lplan = {}
+        self.unplant()
+        first = self.txn_start["op"]          # trace index of the reset op == its index in prog
+        reset_at = next(i for i, op in enumerate(self.case["prog"]) if op[0] == "reset")
+        self.op_reset(0, 0, reuse_session=True)
+        if self.c32_bad():
+            return
+        for i, op in enumerate(self.case["prog"]):
+            if i <= reset_at:
+                continue
+            self.step(i, op)
+            if self.c32_bad():
+                return
+        self.step(len(self.case["prog"]), ["commit", 0, 0])
+        if self.c32_bad():
+            return
+        final = self.tables_json(self.probe(committed=True))
+        exp = self.case.get("expect_final")
+        if exp is not None and final != exp:
+            self.V("C32", "retry_differs_from_fault_free_run", "repeating the work after the failed flush ended in different rows than the "
+                   "fault-free run: %s" % self.diff_tables(self.tables_unjson(exp), self.tables_unjson(final)))
+        self.bump("probe:retry_completed")
+
+    def tables_json(self, tabs):
+        return {t: sorted([list(map(self.cell, r)) for r in rows.values()], key=repr) for t, rows in tabs.items()}
+
+    @staticmethod
+    def cell(v):
+        return v.hex() if isinstance(v, (bytes, bytearray)) else v
+
+    def tables_unjson(self, j):
+        return {t: {(tuple(r[:2]) if t in ("b_t", "nf") else r[0]): tuple(r) for r in rows} for t, rows in j.items()}
+
+    def c32_collect(self):
+        """fault-free run: the positions a fault can be injected at (DML statements and ORM hooks of the transaction after reset)"""
+        if self.txn_start is None or self.in_retry or self.fired_total() or self.planted:
+            return
+        counts, pts = {}, []
+        for j, (kind, head, cid, n) in enumerate(self.plan.calls):
+            if kind not in ("execute", "executemany") or not head or not head.startswith(DML_PREFIXES):
+                continue
+            pred = "%s:%s " % (kind, " ".join(head.split()[:3]))
+            counts[pred] = counts.get(pred, 0) + 1
+            if j >= self.txn_start["call0"]:
+                pts.append([pred, counts[pred]])
+        # hooks that run inside flush (the rest fire in commit / rollback / close, outside what C32 is about)
+        flush_hooks = ("before_flush", "after_flush", "after_flush_postexec", "before_insert", "after_insert", "before_update", "after_update",
+                       "before_delete", "after_delete", "pending_to_persistent", "persistent_to_deleted")
+        lpts = [[name, n] for name, n in self.lcalls[self.txn_start["lcall0"]:] if name in flush_hooks]
+        created = []
+        for t in self.trace:
+            if t[0] > self.txn_start["op"] and t[1] == "mk" and isinstance(t[4], str) and t[4] in self.U["classes"] and t[4] not in created:
+                created.append(t[4])
+        self.derive_info = {"points": pts, "lpoints": lpts, "created": created, "final": self.tables_json(self.probe(committed=True))}
 
     # ------------------------------------------------------------------ operations
     def _newid(self, cls):
@@ -950,7 +1286,11 @@ class Run:
                 if {"b": ("A", "A2"), "p": ("A", "A2"), "node": ("Node",), "r": ("Q",), "h": ("D",), "d": ("BL",), "o": ("G",)}[t2].__contains__(e["cls"]))):
             return "skip"       # rows elsewhere still refer to it: unloaded relationships would tie the detached object to the session
         self.session.expunge(o)
+        e["expunged"] = True
         for x in exp:
+            ex = self.by_id.get(id(x))
+            if ex is not None:
+                ex["expunged"] = True
             if self.in_session(x):
                 self.V("C39", "expunge_cascade_missed", "expunge() left %s in the session although it is reachable through an expunge cascade "
                        "(universe %s)" % (type(x).__name__, self.cfg["universe"]))
@@ -2373,7 +2713,12 @@ class Run:
                        "the application uses (after %s)" % (key[1:2], kind), op=i)
 
         held = {}
-        for key, o in list(self.session.identity_map.items()):
+        try:
+            items = list(self.session.identity_map.items())
+        except AssertionError:
+            self.V("*", "identity_map_holds_keyless_state", "the identity map lists an object whose state has no identity key (after %s)" % kind, op=i)
+            items = []
+        for key, o in items:
             if self.m["inspect"](o).key != key:
                 self.V("C34", "identity_map_entry_under_foreign_key", "the identity map lists an object under %s whose own identity is %s "
                        "(after %s)" % (key[1:2], (self.m["inspect"](o).key or (None, None))[1:2], kind), op=i)
